@@ -306,9 +306,44 @@ def run(ctx):
         r.ok("%s: simple mode writes the exception text" % render.short)
     else:
         r.fail(render, render.node, "simple mode write", "in simple mode the message of the exception is not written")
+    # ---------------------------------------------------------------- R7
+    from .c17 import shared_objects_rule
+
+    shared_objects_rule(ctx, "C20-R7", lambda m: m.startswith(("clikit.ui.components.exception_trace", "clikit.formatter")), reference=16)
+
+    # ---------------------------------------------------------------- R6
+    r = ctx.rule("C20-R6", "KEY", "text between two tokens of a source line is copied from the line itself (tabs and "
+                 "other gap characters are shown verbatim)", reference=1)
+    stl = ctx.func("Highlighter.split_to_lines")
+    cfg6 = ctx.cfg(stl)
+    gaps = []
+    for n in cfg6.nodes:
+        if n.kind == "stmt" and isinstance(n.ast, ast.AugAssign) and isinstance(n.ast.target, ast.Name):
+            g = guarded_by(cfg6, n, lambda e: isinstance(e, ast.Compare) and isinstance(e.ops[0], ast.Gt) and any(isinstance(x, ast.Name) and "col" in x.id for x in walk_no_nested(e)), polarity=True,
+                           kill_names=lambda e: set())
+            if g is not None and any(isinstance(x, ast.Name) and "col" in x.id for x in walk_no_nested(n.ast.value)):
+                gaps.append(n)
+    if not gaps:
+        r.vacuous_ok = True
+        r.note("no inter-token gap handling found")
+    for n in gaps:
+        v = n.ast.value
+        from_line = any(isinstance(x, ast.Subscript) and isinstance(x.value, ast.Attribute) and x.value.attr == "line" for x in walk_no_nested(v))
+        if from_line:
+            r.ok("%s: gap text %s copied from the token's line" % (stl.short, norm(v)))
+        else:
+            r.fail(stl, n.ast, norm(n.ast), "the text between two tokens is synthesised (%s) instead of copied from the source line: tabs and other gap characters are not shown verbatim" % norm(v))
+
+    theme_null_rule(ctx, "C20-R5", reference=4)
+    return ctx.results
+
+
+def theme_null_rule(ctx, rule_id, reference=None):
+    p = ctx.p
+    et = ctx.cls("clikit.ui.components.exception_trace.ExceptionTrace")
     # ---------------------------------------------------------------- R5
-    r = ctx.rule("C20-R5", "NULL", "a token type that may still be None (no token seen yet: empty or source-less code) "
-                 "is never used as key into the theme table", reference=4)
+    r = ctx.rule(rule_id, "NULL", "a token type that may still be None (no token seen yet: empty or source-less code) "
+                 "is never used as key into the theme table", reference=reference)
     mod = et.module
     for fi in [f for f in p.all_functions() if f.module is mod]:
         cfg = ctx.cfg(fi)
@@ -347,7 +382,7 @@ def run(ctx):
                        "so %s raises KeyError and the trace fails to render" % (v, norm(sub)))
             else:
                 r.ok(desc)
-    return ctx.results
+    return r
 
 
 def _arm(node):
